@@ -47,31 +47,30 @@ Qed.
 (* ------------------------------------------------------------------ 1. the contract, per entity *)
 Section EntityContract.
 Variables snake camel screaming : str -> str.
-Variable lenient : bool.
 
 (* the six declarations an entity puts into the main file *)
 Definition entity_main_elements (e : entity) : list element :=
   [keys_object e; data_object e; status_enum e; state_object e; event_type e; event_object e].
 
 Theorem entity_contract bd dir base imps els e D :
-  package_contract_full snake camel screaming lenient bd (join dot dir) D ->
+  package_contract_full snake camel screaming bd (join dot dir) D ->
   In (BJ (expand_jfile dir base imps els)) bd -> In (XEntity e) els ->
   let f := expand_jfile dir base imps els in
   let pkg := join dot dir in
   (* main file: the objects, the oneof and the enum, each to the contract of its declaration *)
   (exists df, In df D /\ fl_path df = main_proto_path f /\
      forall el, In el (entity_main_elements e) ->
-       element_ok snake camel screaming lenient el (fl_msgs df) (fl_enums df)) /\
+       element_ok snake camel screaming el (fl_msgs df) (fl_enums df)) /\
   (* .service file: the query service with its request / response messages *)
   (exists df ms ds, In df D /\ fl_path df = sub_proto_path f (b "service") /\ In ds (fl_svcs df) /\
      match query_service pkg e with
-     | EService s => service_linked_ok snake camel screaming lenient (pkg ++ dot ++ b "service") s ms ds
+     | EService s => service_linked_ok snake camel screaming (pkg ++ dot ++ b "service") s ms ds
      | _ => False
      end) /\
   (* .topic file: the publish topic with its message *)
   (exists df ms ss, In df D /\ fl_path df = sub_proto_path f (b "topic") /\
      match publish_topic pkg e with
-     | ETopic t => topic_linked_ok snake camel screaming lenient (pkg ++ dot ++ b "topic") t ms ss
+     | ETopic t => topic_linked_ok snake camel screaming (pkg ++ dot ++ b "topic") t ms ss
      | _ => False
      end).
 Proof.
